@@ -108,7 +108,10 @@ def quirkList : List (String × Cy.Quirks) := [
   ("rebound-node-pattern-is-cross-product", { reboundNodePatternIsCrossProduct := true }),
   ("undirected-same-variable-matches-any-incident-edge", { undirectedSameVariableMatchesIncident := true }),
   ("undirected-step-from-bound-node-returns-both-endpoints", { undirectedBoundStepBothEndpoints := true }),
-  ("with-clause-drops-order-by-skip-limit", { withDropsOrderSkipLimit := true })
+  ("with-clause-drops-order-by-skip-limit", { withDropsOrderSkipLimit := true }),
+  ("property-to-property-comparison-uses-jsonb-order", { propVsPropJsonbOrder := true }),
+  ("expansion-reuses-relationships-of-earlier-steps", { expansionIgnoresUsed := true }),
+  ("optional-match-outer-joins-only-the-last-step", { optionalOnlyLastStepOuter := true })
 ]
 
 def allQuirks : Cy.Quirks :=
@@ -116,7 +119,7 @@ def allQuirks : Cy.Quirks :=
     negStringNullIsEmpty := true, expansionStopsAtLoop := true, collectAsText := true, sumEmptyIsNull := true,
     jsonbOrdering := true, nullListConcat := true, stringPredicateOnTextForm := true, expansionDropsTrailingLoop := true,
     propEqualsVariableOnTextForm := true, reboundNodePatternIsCrossProduct := true, undirectedSameVariableMatchesIncident := true,
-    undirectedBoundStepBothEndpoints := true, withDropsOrderSkipLimit := true }
+    undirectedBoundStepBothEndpoints := true, withDropsOrderSkipLimit := true, propVsPropJsonbOrder := true, expansionIgnoresUsed := true, optionalOnlyLastStepOuter := true }
 
 def withQuirk (base : Cy.Quirks) (name : String) (on : Bool) : Cy.Quirks :=
   match name with
@@ -137,6 +140,9 @@ def withQuirk (base : Cy.Quirks) (name : String) (on : Bool) : Cy.Quirks :=
   | "undirected-same-variable-matches-any-incident-edge" => { base with undirectedSameVariableMatchesIncident := on }
   | "undirected-step-from-bound-node-returns-both-endpoints" => { base with undirectedBoundStepBothEndpoints := on }
   | "with-clause-drops-order-by-skip-limit" => { base with withDropsOrderSkipLimit := on }
+  | "property-to-property-comparison-uses-jsonb-order" => { base with propVsPropJsonbOrder := on }
+  | "expansion-reuses-relationships-of-earlier-steps" => { base with expansionIgnoresUsed := on }
+  | "optional-match-outer-joins-only-the-last-step" => { base with optionalOnlyLastStepOuter := on }
   | _ => base
 
 /-- which known deviations (switches of the reference semantics) reproduce exactly the rows the SQL returned? -/
@@ -150,17 +156,25 @@ def explain (g : Graph) (km : KindMap) (q : Cy.Query) (ordered : Bool) (bagCols 
   match names.find? (fun n => agreesUnder (mk [n])) with
   | some n => [n]
   | none =>
-    -- the deviations interact (some exclude each other), so combinations are searched explicitly: pairs, then triples
-    let idx := List.range names.length
-    let pairs := idx.flatMap (fun i => (idx.filter (· > i)).map (fun j => [names.getD i "", names.getD j ""]))
+    -- the deviations interact (some exclude each other), so combinations are searched explicitly: pairs, then triples.
+    -- Budget: on graphs with more than 5 edges only the switches that change the result on their own are combined; when that
+    -- restricted search finds nothing the answer is "?over-budget" (the query is then judged on its smaller graphs).
+    let small := g.edges.length ≤ 5
+    let base := match Cy.evalKeyed Cy.Quirks.none g q with | .ok (_, rows) => some (renderRows (rows.map (fun r => r.1.map (Cy.CVal.toR g km)))) | .error _ => none
+    let cand := if small then names else names.filter (fun n =>
+      match Cy.evalKeyed (mk [n]) g q with
+      | .ok (_, rows) => some (renderRows (rows.map (fun r => r.1.map (Cy.CVal.toR g km)))) != base
+      | .error _ => true)
+    let idx := List.range cand.length
+    let pairs := idx.flatMap (fun i => (idx.filter (· > i)).map (fun j => [cand.getD i "", cand.getD j ""]))
     match pairs.find? (fun ns => agreesUnder (mk ns)) with
     | some ns => ns
     | none =>
       let triples := idx.flatMap (fun i => (idx.filter (· > i)).flatMap (fun j => (idx.filter (· > j)).map (fun k =>
-        [names.getD i "", names.getD j "", names.getD k ""])))
+        [cand.getD i "", cand.getD j "", cand.getD k ""])))
       match triples.find? (fun ns => agreesUnder (mk ns)) with
       | some ns => ns
-      | none => []
+      | none => if small then [] else ["?over-budget"]
 
 def compareOn (km : KindMap) (params : List (String × Val)) (q : Cy.Query) (s : Stmt) (ordered : Bool) (bagCols : List Nat) (g : Graph) : Outcome :=
   match Cy.evalKeyed Cy.Quirks.none g q with
@@ -214,8 +228,13 @@ def summarize (outs : List Outcome) : String :=
   let other := outs.filterMap (fun o => match o with | .sqlOther c d => some (c ++ " " ++ d) | _ => none)
   let uc := outs.filterMap (fun o => match o with | .unmodelledCy w => some w | _ => none)
   let us := outs.filterMap (fun o => match o with | .unmodelledSql w => some w | _ => none)
-  let counts := s!"graphs={outs.length} agree={agree} differ={df.length} rterr={rt.length} other={other.length} ucy={uc.length} usql={us.length}"
+  let nOver := (df.filter (fun p => p.1 == ["?over-budget"])).length
+  let counts := s!"graphs={outs.length} agree={agree} differ={df.length} rterr={rt.length} other={other.length} ucy={uc.length} usql={us.length} overbudget={nOver}"
   -- unexplained differences first; then, per distinct explanation, one representative
+  let overBudget := df.filter (fun p => p.1 == ["?over-budget"])
+  let df := df.filter (fun p => p.1 != ["?over-budget"])
+  -- differences whose explanation search ran over budget count as unexplained unless a smaller graph of the same query was explained
+  let df := if df.any (fun p => !p.1.isEmpty) then df else df ++ overBudget.map (fun p => (([] : List String), p.2))
   let unexplained := df.filter (fun p => p.1.isEmpty)
   let classes := (df.filter (fun p => !p.1.isEmpty)).map (fun p => "+".intercalate p.1) |>.eraseDups
   let expl := if classes.isEmpty then "" else " explained=" ++ ",".intercalate classes
@@ -245,7 +264,36 @@ def bagColumns (q : Cy.Query) : List Nat :=
 
 /-- SKIP / LIMIT without ORDER BY picks an arbitrary subset in both languages: results are not comparable -/
 def unorderedCut (p : Cy.Projection) : Bool := (p.skip.isSome || p.limit.isSome) && p.orderBy.isEmpty
-def nondeterministic (q : Cy.Query) : Bool := unorderedCut q.ret || q.parts.any (fun p => unorderedCut p.proj)
+/-- ORDER BY a collect(...) value: the element order inside the collected list is unspecified in both languages -/
+def ordersByCollect (names : List String) (p : Cy.Projection) : Bool :=
+  let aliases := names ++ p.items.filterMap (fun it => match Cy.aggCall? it.e, it.alias with
+    | some ("collect", _, _), some a => some a
+    | _, _ => none)
+  p.orderBy.any (fun k => match Cy.aggCall? k.1 with
+    | some ("collect", _, _) => true
+    | _ => match k.1 with
+      | .var v => aliases.contains v
+      | _ => false)
+def nondeterministic (q : Cy.Query) : Bool :=
+  unorderedCut q.ret || q.parts.any (fun p => unorderedCut p.proj) ||
+  ordersByCollect (collectNames q) q.ret || q.parts.any (fun p => ordersByCollect (collectNames q) p.proj)
+
+/-- size of the MATCH patterns: every relationship step counts 1 (variable-length: 2), every further pattern part of a MATCH 1.
+Both evaluators enumerate join products / trails naively, so the cost grows exponentially with this number. -/
+def patternWeight (q : Cy.Query) : Nat :=
+  let ofClauses := fun (cs : List Cy.Clause) => (cs.map (fun c => match c with
+    | .match _ parts _ => (parts.map (fun p => match p with
+        | .mk _ _ _ _ steps => 1 + (steps.map (fun s => if s.1.range.isSome then 2 else 1)).foldl (· + ·) 0)).foldl (· + ·) 0 - 1
+    | _ => 0)).foldl (· + ·) 0
+  (q.parts.map (fun p => ofClauses p.clauses)).foldl (· + ·) 0 + ofClauses q.clauses
+
+/-- evaluation budget (stated in the rule text): heavier queries are only run on the smaller graphs of the family -/
+def graphAllowed (q : Cy.Query) (g : Graph) : Bool :=
+  let w := patternWeight q
+  if w ≤ 1 then true
+  else if w == 2 then g.edges.length ≤ 6
+  else if w == 3 then g.edges.length ≤ 4 && g.nodes.length ≤ 4
+  else g.edges.length ≤ 3 && g.nodes.length ≤ 3
 
 def step (_ : Unit) (ts : List String) : Unit × String :=
   match ts with
@@ -258,7 +306,7 @@ def step (_ : Unit) (ts : List String) : Unit × String :=
         match ReadCy.query cyS with
         | .error tag => ((), s!"unmodelled cypher:{tag.replace " " "_"}")
         | .ok q =>
-          if nondeterministic q then ((), "unmodelled nondeterministic:limit-without-order-by") else
+          if nondeterministic q then ((), "unmodelled nondeterministic:limit-without-order-by-or-order-by-collected-list") else
           match SqlSexp.stmt sqlS with
           | .error tag => ((), s!"unmodelled sql:{tag.replace " " "_"}")
           | .ok s =>
@@ -266,7 +314,8 @@ def step (_ : Unit) (ts : List String) : Unit × String :=
             | none => ((), "unmodelled params")
             | some params =>
               let ordered := !q.ret.orderBy.isEmpty
-              let outs := (graphsFor gseed nrandom exN exE).map (compareOn km params q s ordered (bagColumns q))
+              let graphs := (graphsFor gseed nrandom exN exE).filter (graphAllowed q)
+              let outs := graphs.map (compareOn km params q s ordered (bagColumns q))
               ((), summarize outs)
       | _, _, _, _, _ => ((), "bad-op")
     | _ => ((), "bad-op")
